@@ -15,7 +15,7 @@ Not decided: counter values, fairness, progress of external futures."""
 import re
 from .framework import RuleResult
 import collections
-from .mir import Fn, op_const, switch_edges, disc_switches, region_of_edges, adt_variants, lock_calls
+from .mir import Fn, op_const, switch_edges, disc_switches, region_of_edges, adt_variants, lock_calls, lock_class, guard_of, is_lock_call
 from .callgraph import CallGraph
 
 EXPLANATION = ("Path rules over the MIR of the execution/runtime layer decide the wake-up protocol: Pending ⇒ waker registered (or "
@@ -399,7 +399,7 @@ def rule_park(facts, mons, model):
                         if lc.bb in can_reach and lc.bb != sec.lock.bb and lc.bb != pe.bb:
                             relock = lc
                 ok = bool(conds) and relock is None
-                r.inst({"fn": fn.id, "slot": f"{sec.ty.rsplit('::', 1)[-1]}.{pe.field}", "line": pe.line, "condition_fields": sorted(conds), "parked_when": {k: sorted(str(x) for x in v) for k, v in pols.items()},
+                r.inst({"fn": fn.id, "ty": sec.ty, "slot": f"{sec.ty.rsplit('::', 1)[-1]}.{pe.field}", "line": pe.line, "condition_fields": sorted(conds), "parked_when": {k: sorted(str(x) for x in v) for k, v in pols.items()},
                         "pending_sites_guarded": len(sites)}, ok)
                 if not conds:
                     r.violate(fn.id, f"park:{pe.field}", f"waker stored in {sec.ty.rsplit('::', 1)[-1]}.{pe.field} without reading any condition field under the "
@@ -584,6 +584,372 @@ def rule_extcond(facts, mons, model):
     return r
 
 
+def rule_stack(facts):
+    r = RuleResult("C04-STACK", "ExecutionStack::pop_next re-pushes the popped instruction before returning Pending; NeedsDrain re-executes the same operator", floor=3)
+    fid = "glaredb_core::execution::execution_stack::ExecutionStack::pop_next"
+    rec = facts.fn(fid)
+    if rec is None:
+        r.missing_anchor(fid)
+        return r
+    fn = Fn(rec)
+    r.functions.add(fn.id)
+    pops = [c for c in fn.calls() if c.name.endswith("Vec::<T, A>::pop")]
+    pushes = [c for c in fn.calls() if c.name.endswith("Vec::<T, A>::push")]
+    if not pops or not pushes:
+        r.missing_anchor("Vec::pop / Vec::push on ExecutionStack.instructions")
+        return r
+
+    def from_pop(op, at):
+        o = fn.origin(op, at=at)
+        return o[0] == "call" and o[1] in pops
+
+    repush = [p for p in pushes if len(p.args) > 1 and from_pop(p.args[1], p.bb)]
+    for b, adt, ln in pending_sites(fn):
+        if not adt.endswith("StackControlFlow"):
+            continue
+        ok = any(fn.block_dominates_t(p.bb, b) for p in repush)
+        r.inst({"fn": fn.id, "pending_line": ln, "repush_of_popped_instruction": ok}, ok)
+        if not ok:
+            r.violate(fn.id, "Pending-without-repush", "StackControlFlow::Pending is returned without pushing the popped instruction back: after the wake-up the "
+                      "pipeline resumes with the wrong instruction (the pending operator is skipped)", rec["file"], ln)
+    # NeedsDrain arm
+    pf = adt_variants(facts, "glaredb_core::execution::operators::PollFinalize") or {}
+    found = False
+    for sb, pl, t in disc_switches(fn):
+        if not fn.locals[pl[0]].endswith("PollFinalize"):
+            continue
+        for v, tgt in switch_edges(t):
+            if v == pf.get("NeedsDrain"):
+                found = True
+                region = region_of_edges(fn, [(sb, tgt)])
+                good = False
+                for p in pushes:
+                    if p.bb in region and len(p.args) > 1:
+                        o = fn.origin(p.args[1], at=p.bb)
+                        if o[0] == "rv" and o[1][0] == "agg" and o[1][1][0] == "adt" and o[1][1][2] == "ExecuteOperator":
+                            flds = o[1][1][3]
+                            ops = o[1][2]
+                            idx = fn.origin(ops[flds.index("operator_idx")], at=p.bb)
+                            start = op_const(ops[flds.index("is_pipeline_start")])
+                            same_idx = idx[0] == "call" and idx[1] in pops       # the popped FinalizeOperator's operator_idx
+                            if same_idx and start and start.get("v") == 1:
+                                good = True
+                r.inst({"fn": fn.id, "arm": "PollFinalize::NeedsDrain", "pushes_execute_of_same_operator_as_pipeline_start": good}, good)
+                if not good:
+                    r.violate(fn.id, "NeedsDrain-arm", "the NeedsDrain arm does not push ExecuteOperator{operator_idx: <same>, is_pipeline_start: true}: "
+                              "the draining operator is never polled again", rec["file"], t[5])
+    if not found:
+        r.missing_anchor("match on PollFinalize in pop_next")
+    return r
+
+
+def rule_sched(facts):
+    r = RuleResult("C04-SCHED", "scheduler check-then-act transitions happen inside one critical section; native and wasm runtimes agree", floor=8)
+    mons = {a["id"]: ([], [x[0] for x in a["variants"][0]["fields"]]) for a in facts.records("adt")
+            if a["kind"] == "struct" and a["id"].endswith("ScheduleState") and a["variants"]}
+    if len(mons) < 2:
+        r.missing_anchor("ScheduleState structs of the native and wasm runtimes")
+    sigs = {}
+    NEED = {("running", 1): [("running", "false"), ("completed", "false"), ("canceled", "false")], ("pending", 1): [("running", "true")],
+            ("running", 0): [("pending", "false")], ("pending", 0): [("pending", "true")]}
+    for rec in facts.all_fns(["glaredb_rt_native", "glaredb_wasm"]):
+        if "ScheduleState" not in str(rec["locals"]):
+            continue
+        fn = Fn(rec)
+        for sec in M.sections_of(fn, mons):
+            rt = "wasm" if "wasm" in rec["krate"] else "native"
+            sig = []
+            for w in sec.events:
+                if w.kind != "w":
+                    continue
+                need = NEED.get((w.field, w.value))
+                guards = []
+                for e in sec.events:
+                    if e.kind == "r" and _dom_or_same(fn, e.bb, w.bb):
+                        guards.append((e.field, _park_polarity(fn, e, w.bb)))
+                sig.append((w.field, w.value, tuple(sorted(g for g in guards if g[1]))))
+                if need is None:
+                    continue
+                r.functions.add(fn.id)
+                ok = all(g in guards for g in need)
+                r.inst({"fn": fn.id, "write": f"{w.field} = {w.value}", "line": w.line, "guards_in_same_section": [g for g in guards if g[1]], "required": need}, ok)
+                if not ok:
+                    r.violate(fn.id, f"{w.field}={w.value}", f"`{w.field} = {bool(w.value)}` is not guarded, inside the same critical section, by {need}: a wake-up arriving "
+                              "between the check and the write is lost (task never re-polled) or the task runs twice", rec["file"], w.line)
+            name = fn.path.replace("WasmTaskState", "TaskState").rsplit("TaskState", 1)[-1] if "TaskState" in fn.path else fn.path.rsplit("::", 2)[-2] + "::" + fn.path.rsplit("::", 1)[-1]
+            sigs.setdefault(name, {})[rt] = sig
+        # worker loop: after `pending = false` the loop must be able to reach execute() again
+        for sec in M.sections_of(fn, mons):
+            for w in sec.events:
+                if w.kind == "w" and w.field == "pending" and w.value == 0:
+                    ex = [c for c in fn.calls() if c.name.endswith("TaskState::execute")]
+                    ok = any(c.bb in fn.reach(w.bb) for c in ex)
+                    r.inst({"fn": fn.id, "loop_back_to_execute_after_pending_cleared": ok}, ok)
+                    if not ok:
+                        r.violate(fn.id, "no-repoll-after-pending", "after consuming the `pending` flag the worker does not poll the pipeline again: the wake-up "
+                                  "recorded while it was running is lost", rec["file"], w.line)
+    for name, by in sigs.items():
+        if "native" in by and "wasm" in by:
+            ok = by["native"] == by["wasm"]
+            r.inst({"sibling": name, "native": str(by["native"]), "wasm": str(by["wasm"])}, ok)
+            if not ok:
+                r.violate("glaredb_wasm::runtime::WasmTaskState" + name, "sibling-disagreement", f"scheduler state transitions of the wasm runtime differ from the native runtime: "
+                          f"{by['wasm']} vs {by['native']}", "crates/glaredb_wasm/src/runtime.rs", 0)
+    # cancel: every QueryHandle::cancel sets `canceled` and re-schedules every task
+    for rec in facts.fns_matching(lambda i: i.endswith("QueryHandle>::cancel") and ("glaredb_rt_native" in i or "glaredb_wasm" in i)):
+        fn = Fn(rec)
+        r.functions.add(fn.id)
+        sched = [c for c in fn.calls() if c.name.endswith("TaskState::schedule")]
+        wr = [e for sec in M.sections_of(fn, mons) for e in sec.events if e.kind == "w" and e.field == "canceled" and e.value == 1]
+        ok = bool(sched) and bool(wr)
+        r.inst({"fn": fn.id, "sets_canceled": bool(wr), "reschedules": bool(sched)}, ok)
+        if not ok:
+            r.violate(fn.id, "cancel", "cancel() does not set `canceled` and re-schedule every task: a query parked on an operator cannot be canceled (the handle's "
+                      "waiters hang until the query ends by itself)", rec["file"], rec["line"])
+    return r
+
+
+def rule_err(facts, mons):
+    r = RuleResult("C04-ERR", "a worker's Ready(Err) reaches ErrorSink::set_error; set_error stores the error and wakes the consumer under one lock; the consumer checks error first", floor=4)
+    for rec in facts.fns_matching(lambda i: i.endswith("TaskState::execute")):
+        fn = Fn(rec)
+        r.functions.add(fn.id)
+        polls = [c for c in fn.calls() if c.name.endswith("ExecutablePartitionPipeline::poll_execute")]
+        errs = [c for c in fn.calls() if c.decl.endswith("ErrorSink::set_error") or c.name.endswith("::set_error")]
+        ok = False
+        for c in errs:
+            o = fn.origin(c.args[1], at=c.bb) if len(c.args) > 1 else None
+            if o and o[0] == "call" and o[1] in polls:
+                ok = True
+        r.inst({"fn": fn.id, "poll_calls": len(polls), "set_error_with_poll_error": ok}, ok)
+        if not ok:
+            r.violate(fn.id, "error-not-routed", "the error returned by poll_execute is not passed to ErrorSink::set_error: the consumer waits forever", rec["file"], rec["line"])
+    # set_error impls
+    for rec in facts.fns_matching(lambda i: i.endswith("ErrorSink>::set_error") and "glaredb_core" in i):
+        fn = Fn(rec)
+        secs = M.sections_of(fn, mons)
+        if not secs:
+            continue
+        r.functions.add(fn.id)
+        for sec in secs:
+            w = [e for e in sec.events if e.kind == "w" and e.field == "error"]
+            k = [e for e in sec.events if e.kind == "call" and e.method in M.WAKE_METHODS and "waker" in (e.field or "")]
+            ok = bool(w) and bool(k)
+            r.inst({"fn": fn.id, "stores_error": bool(w), "wakes_in_same_section": bool(k)}, ok)
+            if not ok:
+                r.violate(fn.id, "set_error", "set_error does not store the error and wake the consumer inside one critical section", rec["file"], rec["line"])
+    # consumer: error checked before buffered / remaining_inputs
+    fid = "<glaredb_core::execution::operators::results::streaming::ResultStream as futures::Stream>::poll_next"
+    rec = facts.fn(fid)
+    if rec is None:
+        r.missing_anchor(fid)
+    else:
+        fn = Fn(rec)
+        r.functions.add(fn.id)
+        for sec in M.sections_of(fn, mons):
+            first = {}
+            for e in sec.events:
+                if e.field in ("error", "buffered", "remaining_inputs") and e.field not in first:
+                    first[e.field] = e
+            ok = "error" in first and all(_dom_or_same(fn, first["error"].bb, e.bb) for f_, e in first.items() if f_ != "error")
+            r.inst({"fn": fn.id, "first_access_order": {k: v.line for k, v in first.items()}}, ok)
+            if not ok:
+                r.violate(fn.id, "error-checked-late", "poll_next does not look at `error` before `buffered`/`remaining_inputs`: an error can be masked by end-of-stream",
+                          rec["file"], rec["line"])
+    return r
+
+
+SPAWN = re.compile(r"::(spawn|spawn_local|spawn_fifo|spawn_blocking)$")
+WAKE_EXT = re.compile(r"task::(wake::)?Waker::(wake|wake_by_ref)$")
+
+
+def rule_lock(facts, park_sites=()):
+    """lock-order graph over lock classes (guarded type), interprocedural.
+    park_sites: (function, monitor type, slot) of every waker registration (from C04-PARK) — used to tell slots that
+    only ever hold the wakers of external consumers (registered in code the task runtime never calls) from slots
+    holding pipeline-task wakers; waking an external waker does not enter the workspace's `impl Wake`."""
+    r = RuleResult("C04-LOCK", "the lock-order graph (held → acquired, through calls, wakers and dyn sinks) is acyclic and no lock class is re-acquired while held", floor=20)
+    cg = CallGraph(facts)
+    wake_impls = [n for n, m in cg.nodes.items() if (m.get("impl_trait") or "").endswith("task::Wake") and m.get("name") in ("wake", "wake_by_ref")]
+    exec_roots = [n for n in cg.nodes if n.endswith("TaskState::execute")]
+    pipeline_code = cg.reachable(exec_roots, use_x=False)
+    slot_role = {}
+    for f_, ty_, slot_ in park_sites:
+        key = (ty_, slot_)
+        root = cg.nodes.get(f_, {}).get("root") or f_
+        if f_ in pipeline_code or root in pipeline_code:
+            slot_role[key] = "pipeline"
+        else:
+            slot_role.setdefault(key, "external")
+    external_wakes = set()     # (function path, bb) of Waker::wake* calls on a waker taken from an external-only slot
+    # per function: lock classes acquired directly, calls made while each lock is held
+    direct = {}
+    held_calls = {}     # fn -> list of (class, callee name, line)
+    nested = []         # (fn, A, B, line)
+    spawned_closures = set()
+    recs = {}
+    for rec in facts.all_fns(SCOPE_CRATES):
+        s = str(rec["locals"])
+        has_lock = "Mutex" in s or "RwLock" in s
+        fn = None
+        # closures handed to a spawn function run later on another stack: not under the spawner's locks
+        if "spawn" in str(rec["bbs"]):
+            fn = Fn(rec)
+            for c in fn.calls():
+                if SPAWN.search(c.name):
+                    for a in c.args:
+                        o = fn.origin(a, at=c.bb)
+                        if o[0] == "rv" and o[1][0] == "agg" and o[1][1][0] in ("closure", "coroutine", "coroutine_closure"):
+                            spawned_closures.add(o[1][1][1])
+        if not has_lock:
+            continue
+        fn = fn or Fn(rec)
+        lcs = lock_calls(fn)
+        if not lcs:
+            continue
+        recs[fn.path] = rec
+        for c in fn.calls():
+            if WAKE_EXT.search(c.name) and c.args:
+                o = fn.origin(c.args[0], through_calls=M_DEREFS + ("::take", "::as_ref", "::as_mut", "::unwrap", "::expect"), at=c.bb)
+                if o[0] == "call" and is_lock_call(o[1]):
+                    flds = [p[1] for p in (o[2] if len(o) > 2 and isinstance(o[2], list) else []) if isinstance(p, list) and p[0] == "f"]
+                    ty0, _ = lock_class(fn, o[1])
+                    if flds and slot_role.get((ty0, flds[0])) == "external":
+                        external_wakes.add((fn.path, c.bb))
+        classes = []
+        for lc in lcs:
+            ty, path = lock_class(fn, lc)
+            cls = ty
+            classes.append((lc, cls))
+        direct[fn.path] = {cls for _, cls in classes}
+        hc = []
+        for lc, cls in classes:
+            sec = M.Section(fn, lc, cls, "")
+            blks = sec.blocks()
+            rel = sec.release_blocks()
+            for c in fn.calls():
+                if c.bb in blks and c.bb != lc.bb and c is not lc:
+                    # a call in a release block that *is* the release (mem::drop(guard)) does not run under the lock
+                    if c.bb in rel and "mem::drop" in c.name:
+                        continue
+                    if any(c.name.endswith(sfx) for sfx in ("::deref", "::deref_mut")):
+                        continue
+                    for lc2, cls2 in classes:
+                        if c is lc2:
+                            nested.append((fn.path, cls, cls2, c.line))
+                    hc.append((cls, c, c.line))
+        held_calls[fn.path] = hc
+    # transitive acquisitions: least fixpoint of acq[f] = direct[f] ∪ ⋃ acq[callee]  (witness chain kept per class)
+    def callees_of(name):
+        return {x for x in cg.edges.get(name, ()) if x not in spawned_closures}
+
+    all_nodes = set(cg.nodes)
+    acq = {n: {c: [n] for c in direct.get(n, ())} for n in all_nodes}
+    rev = collections.defaultdict(set)
+    for n in all_nodes:
+        for m in callees_of(n):
+            # calls to the external Waker::wake* resolve to every workspace `impl Wake`
+            if WAKE_EXT.search(m):
+                for w in wake_impls:
+                    rev[w].add(n)
+            elif m in all_nodes:
+                rev[m].add(n)
+    work = [n for n in all_nodes if acq[n]]
+    while work:
+        n = work.pop()
+        for caller in rev.get(n, ()):
+            changed = False
+            for c, chain in acq[n].items():
+                if c not in acq[caller]:
+                    acq[caller][c] = [caller] + chain
+                    changed = True
+            if changed:
+                work.append(caller)
+
+    def acquires(name):
+        if WAKE_EXT.search(name):
+            res = {}
+            for w in wake_impls:
+                for c, chain in acq.get(w, {}).items():
+                    res.setdefault(c, [name] + chain)
+            return res
+        return acq.get(name, {})
+
+    edges = {}
+    for fpath, hc in held_calls.items():
+        for cls, c, line in hc:
+            tgt = c.name
+            targets = set()
+            if WAKE_EXT.search(tgt):
+                if (fpath, c.bb) in external_wakes:
+                    r.exempt(f"{fpath} Waker::wake", "the waker comes from a slot that is only ever filled by code the task runtime never calls "
+                             "(external consumer's waker, e.g. ResultStream::poll_next): waking it does not enter the workspace's impl Wake (checked from the C04-PARK sites)")
+                    continue
+                targets |= set(wake_impls)
+            if c.callee.get("rkind") in ("unresolved", "virtual") or ("trait" in c.callee and "res" not in c.callee):
+                for impl in cg.by_trait_item.get(c.decl, []):
+                    sa = cg.nodes[impl].get("self_adt")
+                    if sa is None or sa in cg.inst_adts:
+                        targets.add(impl)
+            else:
+                targets.add(tgt)
+            for t_ in targets:
+                for cls2, chain in acquires(t_).items():
+                    edges.setdefault((cls, cls2), (fpath, line, [fpath] + chain))
+    for fpath, a, b, line in nested:
+        edges.setdefault((a, b), (fpath, line, [fpath]))
+    short = lambda s: s.rsplit("::", 1)[-1].split("<")[0] if "<" not in s else s.split("<")[0].rsplit("::", 1)[-1] + "<…>"
+    for (a, b), (fpath, line, chain) in sorted(edges.items()):
+        r.inst({"held": short(a), "acquired": short(b), "witness": chain[0].rsplit("::", 2)[-2] + "::" + chain[0].rsplit("::", 1)[-1], "line": line, "via": [short(x) for x in chain[1:4]]})
+        r.functions.add(fpath)
+    # cycles (SCCs of the class graph) and self loops
+    adj = collections.defaultdict(set)
+    for (a, b) in edges:
+        adj[a].add(b)
+    nodes = set(adj) | {b for bs in adj.values() for b in bs}
+    index, low, st, onst, out = {}, {}, [], set(), []
+
+    def strong(v):
+        index[v] = low[v] = len(index)
+        st.append(v)
+        onst.add(v)
+        for w in adj[v]:
+            if w not in index:
+                strong(w)
+                low[v] = min(low[v], low[w])
+            elif w in onst:
+                low[v] = min(low[v], index[w])
+        if low[v] == index[v]:
+            comp = []
+            while True:
+                w = st.pop()
+                onst.discard(w)
+                comp.append(w)
+                if w == v:
+                    break
+            out.append(comp)
+    for v in sorted(nodes):
+        if v not in index:
+            strong(v)
+    for comp in out:
+        if len(comp) > 1:
+            cyc = sorted(comp)
+            wit = []
+            for a in cyc:
+                for b in cyc:
+                    if (a, b) in edges and a != b:
+                        f_, ln, ch = edges[(a, b)]
+                        wit.append(f"{short(a)}→{short(b)} in {ch[0].rsplit('::', 1)[-1]}:{ln} via {' → '.join(x.rsplit('::', 1)[-1] for x in ch[1:5])}")
+            f0, ln0, _ = edges[[(a, b) for a in cyc for b in cyc if (a, b) in edges and a != b][0]]
+            r.violate("lock-order", "cycle:" + "<->".join(short(c) for c in cyc), "lock-order inversion (potential deadlock): " + "; ".join(wit),
+                      recs.get(f0, {}).get("file", ""), ln0)
+    for (a, b), (fpath, line, chain) in edges.items():
+        if a == b:
+            r.violate(fpath, "reacquire:" + short(a), f"lock class {short(a)} may be acquired again while held (parking_lot mutexes are not re-entrant) via "
+                      f"{' → '.join(x.rsplit('::', 1)[-1] for x in chain[:6])}", recs.get(fpath, {}).get("file", ""), line)
+    return r
+
+
 def rule_addblocks(facts):
     """checked side condition of the MergeQueue::add_sorted_blocks exemption"""
     r = RuleResult("C04-ADDBLOCKS", "add_sorted_blocks (no wake) is only reached from PhysicalGlobalSort::poll_finalize_execute, whose success exits return NeedsDrain", floor=1)
@@ -646,4 +1012,20 @@ def run(ctx):
     facts = ctx["facts"]
     mons, model = collect_monitor_model(facts)
     park, P = rule_park(facts, mons, model)
-    return [rule_pend(facts), park, rule_notify(facts, mons, model, P), rule_extcond(facts, mons, model), rule_addblocks(facts)]
+    PARK_SITES = [(i["fn"], i["ty"], i["slot"].split(".", 1)[1]) for i in park.instances]
+    return [rule_pend(facts), park, rule_notify(facts, mons, model, P), rule_extcond(facts, mons, model), rule_addblocks(facts),
+            rule_stack(facts), rule_sched(facts), rule_err(facts, mons), rule_lock(facts, PARK_SITES)]
+
+
+CLAIM = {
+    "text": "Path-sensitive rules over MIR of every operator/runtime function decide the wake-up protocol for all schedules at once: "
+            "Pending ⇒ waker registered or delegated (C04-PEND), park atomic with its condition under one guard (C04-PARK), every write to a "
+            "parked-on field wakes the parked slots in the same critical section with polarity and wake-if-zero idioms (C04-NOTIFY/EXTCOND), "
+            "stack replay of the pending instruction (C04-STACK), atomic scheduler transitions and sibling agreement of the two runtimes "
+            "(C04-SCHED), error routing (C04-ERR) and an acyclic interprocedural lock-order graph (C04-LOCK). Tests sample one poll order; "
+            "these rules quantify over every path. Counter values and fairness remain undecided.",
+    "note": "trusted: rustc MIR; class-hierarchy/RTA call graph (Waker::wake → workspace impl Wake unless the slot only holds external "
+            "consumers' wakers); exemption tables in rules/c04.py (each with reason, several with checked side conditions); "
+            "closures passed to spawn functions run outside the spawner's locks",
+    "technique": "static analysis: MIR critical-section/typestate path rules + interprocedural lock-order graph (rustc_private driver)",
+}
